@@ -426,6 +426,13 @@ def run_obligation(ob, repo, tier, known):
         status, err = ERROR, 'recursion limit in analysis: %s' % e
     except Exception as e:   # a crash of the checker is an analysis error, never a violation
         status, err = ERROR, 'checker exception %s: %s @ %s' % (type(e).__name__, e, traceback.format_exc().strip().split('\n')[-3:])
+    if status != ERROR:
+        # a finding inside a function that now delegates to a helper unknown to the reference which the normaliser could not inline:
+        # the construct the rule looks for may live in that helper - the checker cannot see its subject (exit 2), it does not accuse
+        opaque = [f for f in ctx.findings if f.fn is not None and getattr(f.fn.node, '_opaque', None) and f.absent]
+        if opaque and len(opaque) == len(ctx.findings):      # only 'expected construct not found' reports, all in such functions
+            status, err = ERROR, '%s delegates to new helper(s) %s that could not be inlined: %s' % (opaque[0].fn.construct, opaque[0].fn.node._opaque, opaque[0].msg[:120])
+            ctx.findings = []
     if status != ERROR and os.environ.get('VERIF_ABSENT') == 'error':
         definite = [f for f in ctx.findings if not f.absent]
         if ctx.findings and not definite:
